@@ -130,6 +130,15 @@ def gen_random_script(rng, prop, long=False):
                 st[k] = rng.choice([1, 1, 2, 3]) if k == "mPre" else False
             elif st["a"] in ("bad", "reset") and rng.random() < 0.2:
                 st[rng.choice(["mStop", "cStop"])] = False
+    if rng.random() < 0.25:
+        # stretches of frames whose telemetry reports a recent flat-field correction (the detector reports no motion on
+        # them; whatever is recorded, pre-trigger frames included, must still be gap-free)
+        i = rng.randrange(0, max(1, len(steps) - 5))
+        while i < len(steps):
+            for st in steps[i:i + rng.randint(1, 12)]:
+                if st["a"] == "frame":
+                    st["ffc"] = True
+            i += rng.randint(15, 60)
     return dict(cfg=cfg, steps=steps, origin="random")
 
 
@@ -392,6 +401,22 @@ def run(ctx, only_scripts=None):
                     violations.append(dict(key=t, replay=rp, what=json.dumps(tev[line - 1])[:300]))
         stats["throttled_composition_events"] = tnev
         stats["throttled_frames_without_disk_space"] = sum(1 for e in tev if e.get("ev") == "pframe" and not e["disk"])
+        # the storage layer's own free-space computation against statfs (incl. the reserved band of file systems that have one)
+        import subprocess
+        dout = ctx.path("run", "diskcheck.ndjson")
+        r = subprocess.run([binp, "-test.run", "^TestVerifDiskCheck$"], env=dict(os.environ, VERIF_OUT=dout), capture_output=True, text=True, timeout=300)
+        if r.returncode != 0 or not os.path.exists(dout):
+            raise vlib.Infra("disk-check driver failed: " + (r.stdout + r.stderr)[-2000:])
+        dev = vlib.read_ndjson(dout)
+        dviol, _ = judge(ctx, dout, "diskmon")
+        for (line, tags) in dviol:
+            for t in tags:
+                if t.startswith("C04:") and t not in seen:
+                    seen.add(t)
+                    rp = vlib.save_replay(ctx, t.replace(":", "_"), dict(family="proc", property="C04", clause=t, observed=dev[line - 1]))
+                    violations.append(dict(key=t, replay=rp, what=json.dumps(dev[line - 1])[:300]))
+        stats["disk_checks"] = len(dev)
+        stats["disk_checks_in_reserved_band"] = sum(1 for e in dev if e["mb"] > e["avail_hi"] and e["mb"] < e["free"])
     if prop == "C03" and only_scripts is None:
         cv, cstats = config_lengths(ctx, tier)
         violations += [v for v in cv if v["key"] not in seen]
